@@ -325,3 +325,63 @@ def reverse_labels(run):
     if len(rc) != 1 or len(sc) != 1:
         return None
     return list(sc)[0], list(rc)[0]
+
+
+# ---------------------------------------------------------------- keepalive (Keepalive.v)
+
+def keepalive_case(run):
+    ml = main_labels(run)
+    cconn = ml[0]
+    T = int(run["params"]["timeout_ms"]) * 1000000
+    silent = run["params"]["kind"] == "silent"
+    kevs, aevs = [], ["ConnUp"]
+    last_t = None
+    started = False
+    for e in run["events"]:
+        if e["c"] != cconn:
+            continue
+        p = e["p"]
+        if p == "deadline.reset" and not started:
+            started = True
+            last_t = e["t"]          # the first arming of the deadline is time 0 of the model
+            aevs.append("ResetDeadline")
+            continue
+        if not started:
+            continue
+        if p in ("deadline.reset", "reader.err", "reader.msg", "ping.recv", "pong.recv", "send.req", "ping.send", "redial.swap"):
+            dt = e["t"] - last_t
+            last_t = e["t"]
+            kevs.append("Tick %d" % dt)
+        if p == "deadline.reset":
+            kevs.append("Reset")
+            aevs.append("ResetDeadline")
+        elif p == "reader.msg":
+            aevs.append("PeerData")
+        elif p in ("ping.recv", "pong.recv"):
+            aevs.append("PeerControl")
+        elif p in ("send.req", "ping.send"):
+            aevs.append("OwnWrite")
+        elif p == "redial.swap":
+            aevs.append("ConnUp")
+        elif p == "reader.err":
+            break                     # the first reader error ends the timed trace of this connection
+    return "{| kc_T := %d; kc_events := [%s]; kc_expect_fired := %s; kc_aevents := [%s] |}" % (T, "; ".join(kevs), "true" if silent else "false", "; ".join(aevs))
+
+
+KHEADER = "From Coq Require Import List ZArith NArith Bool.\nImport ListNotations.\nFrom JR Require Import Keepalive AuthCases KeepaliveCases.\nOpen Scope Z_scope.\n"
+
+
+def validate_keepalive(res, runs, name):
+    import re
+    runs = [r for r in runs if r["scenario"] == "keepalive"]
+    if not runs:
+        return [], runs
+    src = KHEADER + "Definition cases : list kcase := [\n%s\n].\nDefinition D := Eval vm_compute in map kcase_diag cases.\nPrint D.\n" % ";\n".join(keepalive_case(r) for r in runs)
+    rc, out = vlib.run_cases("cases_%sk" % name, src)
+    m = re.search(r"D\s*=\s*(.*?)\n\s*:\s", out, flags=re.S) if rc == 0 else None
+    pairs = re.findall(r"\(\s*(\d+)(?:%N)?,\s*(\d+)(?:%N)?\s*\)", m.group(1)) if m else None
+    if pairs is None or len(pairs) != len(runs):
+        res.mismatches.append({"family": "conn/keepalive", "error": "keepalive cases did not evaluate", "log": out[-1500:]})
+        return [], runs
+    bad = [(r, int(d), int(i)) for (d, i), r in zip(pairs, runs) if int(d) != 0]
+    return bad, runs
